@@ -154,7 +154,7 @@ func ks(kmax int, thorough bool, r *rand.Rand) []int {
 // every selected k, alternating Close / AsyncClose where the component has both.
 func makeSpecs(seed int64, thorough bool, limit int) []Spec {
 	r := rand.New(rand.NewSource(seed*7919 + 17))
-	rounds := 3
+	rounds := 2
 	if thorough {
 		rounds = 8
 	}
